@@ -20,7 +20,8 @@ EXTENDS Integers, Sequences, FiniteSets, TLC, Json, Randomization
 
 CONSTANTS TraceFile,   \* ndjson file written by harness/drive (writeIO)
           MaxExh,      \* dirty sets up to this size are enumerated exhaustively
-          NRandom      \* number of random subsets sampled for larger dirty sets
+          NRandom,     \* number of random subsets sampled for larger dirty sets
+          ProdCap      \* largest number of per-file choice combinations enumerated in full at one crash point
 
 Trace == ndJsonDeserialize(TraceFile)
 
@@ -117,6 +118,26 @@ Prod(names, fs) ==   \* all functions name -> choice
   ELSE LET x == CHOOSE y \in names : TRUE IN
        {Put(g, x, c) : g \in Prod(names \ {x}, fs), c \in FileChoices(fs[x])}
 
+(* When several files are dirty at once the full product explodes (a change that drops an fsync  *)
+(* leaves whole files dirty).  Beyond ProdCap combinations the images are: every choice for ONE  *)
+(* file at a time, the other files either losing everything un-fsynced or keeping everything.   *)
+Extremes(f) == { [len |-> f.vol, keep |-> {c \in f.dirty : c < f.vol}],
+                 [len |-> IF f.vol <= f.dur THEN f.vol ELSE f.dur, keep |-> {}] }
+RECURSIVE ExtProd(_, _)
+ExtProd(names, fs) ==
+  IF names = {} THEN {<<>>}
+  ELSE LET x == CHOOSE y \in names : TRUE IN
+       {Put(g, x, c) : g \in ExtProd(names \ {x}, fs), c \in Extremes(fs[x])}
+RECURSIVE ProdSize(_, _)
+ProdSize(names, fs) ==
+  IF names = {} THEN 1
+  ELSE LET x == CHOOSE y \in names : TRUE
+           rest == ProdSize(names \ {x}, fs)
+       IN IF rest > ProdCap THEN rest ELSE rest * Cardinality(FileChoices(fs[x]))
+Mixed(names, fs) ==
+  UNION { { Put(e, x, c) : c \in FileChoices(fs[x]), e \in ExtProd(names \ {x}, fs) } : x \in names }
+Images(names, fs) == IF ProdSize(names, fs) <= ProdCap THEN Prod(names, fs) ELSE Mixed(names, fs)
+
 (* A metadata transaction in flight needs no extra choice: "not committed" is the *)
 (* image of the previous crash point and "committed" the image of the next one.  *)
 
@@ -131,7 +152,7 @@ Crash ==
           LET alive == {x \in DOMAIN files :
                           /\ (files[x].dirDur \/ x \in cr)
                           /\ ~(x \in un)}
-          IN \E ch \in Prod(alive, files) :
+          IN \E ch \in Images(alive, files) :
                img' = [at |-> n, path |-> path,
                        keep |-> [x \in alive |-> ch[x].keep],
                        len  |-> [x \in alive |-> ch[x].len],
